@@ -76,6 +76,7 @@ DelClassActs == {[op |-> "del_class", x |-> x] : x \in Mut \cup SpawnMut}
 PopNameActs == {[op |-> "pop_name", x |-> x] : x \in Mut}
 PopClassActs == {[op |-> "pop_class", x |-> x] : x \in Mut \cup SpawnMut}
 ClearActs == {[op |-> "clear", x |-> x, c |-> ""] : x \in Mut \cup SpawnMut}
+             \cup {[op |-> "clear", x |-> x, c |-> "worldspawn"] : x \in SpawnMut}   \* not refused, class kept
 CopyActs == {[op |-> "copy", x |-> x, p |-> p, m |-> m] : x \in Live \cup SpawnMut, p \in NextFree, m \in CopyMaps}
 MakeUniqueActs == {a \in {[op |-> "make_unique", x |-> x, prefix |-> p] : x \in Mut, p \in Prefixes} :
                       Apply(MCF, st, a).s.ent[a.x].name \in NameU}
